@@ -77,7 +77,41 @@ def spec_of(chain):
 
 # ------------------------------------------------------------------ generators
 
+# multiplicities of identical-particle names in the final state: [B,B]-type groupings only occur with >= 2 particles
+# of one name inside one grouping, and distinct groupings can only collapse onto each other with >= 3 of one name or
+# two identical pairs -> every pattern below is enumerated deterministically (not left to the seeded pools)
+MULT_PATTERNS = {
+    2: [(2,)],
+    3: [(2, 1), (3,)],
+    4: [(3, 1), (2, 2), (4,), (2, 1, 1)],
+    5: [(3, 1, 1), (2, 2, 1), (3, 2), (4, 1), (5,)],
+    6: [(2, 2, 2), (3, 3), (4, 2), (3, 2, 1), (2, 2, 1, 1), (3, 1, 1, 1)],
+    7: [(3, 2, 2), (4, 3), (2, 2, 2, 1)],
+}
+PATTERN_NAMES = ["B", "C", "pi", "K", "D*0", "p", "e-"]
+
+
+def pattern_finals(pat, rnd=None):
+    """finals with the given name multiplicities, e.g. (3, 1) -> B:1 B:2 B:3 C (order seeded if rnd is given)"""
+    names = list(PATTERN_NAMES)
+    if rnd is not None:
+        rnd.shuffle(names)
+    out = []
+    for nm, m in zip(names, pat):
+        if m == 1 and (rnd is None or rnd.random() < 0.7):
+            out.append(nm)
+        else:
+            ids = list(range(1, m + 1)) if rnd is None else rnd.sample([1, 2, 3, 4, 5, 7, 10, 12], m)
+            out += ["%s:%d" % (nm, i) for i in ids]
+    if rnd is not None:
+        rnd.shuffle(out)
+    return out
+
+
 def pick_finals(rnd, n):
+    style = rnd.random()
+    if style < 0.3 and n in MULT_PATTERNS:
+        return pattern_finals(rnd.choice(MULT_PATTERNS[n]), rnd)
     style = rnd.random()
     if style < 0.35:
         return rnd.sample(FINAL_POOL, n)
@@ -193,6 +227,10 @@ def correspond(ctx, res):
         if n <= 5:
             for _ in range(2):
                 namings.append((rnd.choice(TOP_POOL), pick_finals(rnd, n)))
+            if n >= 3:
+                pats = MULT_PATTERNS[n]
+                for pat in (pats[:2] + [pats[2 + ctx.seed % (len(pats) - 2)]] if ctx.quick and len(pats) > 2 else pats):
+                    namings.append(("A", pattern_finals(pat, rnd)))
         for top, fs in namings:
             lines.append("C14 fp %s %s" % (top, " ".join(fs)))
             r = guarded(lambda: DecayChain.from_particles(BaseParticle(top), [BaseParticle(f) for f in fs]))
@@ -357,6 +395,14 @@ def search(ctx, res):
         namings = [("A", ["f%d" % i for i in range(n)])]
         if n <= 5:
             namings.append((rnd.choice(TOP_POOL), pick_finals(rnd, n)))
+        # every multiplicity pattern of identical-particle names: all for n<=5; for n=6 two per run (all when hard)
+        pats = MULT_PATTERNS.get(n, [])
+        if n == 6 and not hard:
+            pats = [pats[ctx.seed % len(pats)], pats[(ctx.seed + 1) % len(pats)]]
+        if n >= 7:
+            pats = pats[:1]
+        for pat in pats:
+            namings.append(("A", pattern_finals(pat)))
         for top_s, fs in namings:
             top = BaseParticle(top_s)
             finals = [BaseParticle(f) for f in fs]
@@ -388,7 +434,7 @@ def search(ctx, res):
                 miss = list(want - set(got))[:1]
                 res.fail("from_particles:missing-topology", "from_particles(%s, %s): %d of %d binary trees produced; e.g. missing groupings %s" % (
                     top_s, fs, len(set(got) & want), len(want), [sorted(x) for x in miss[0]] if miss else None), rp)
-            stats[n] = len(chains)
+            stats.setdefault(n, []).append(len(chains))
             # topology_same == equality of grouping sets (all pairs n<=5; seeded pairs above), both flags
             namekey = {str(f): f.name for f in finals}
             idkey = {str(f): str(f) for f in finals}
@@ -398,14 +444,28 @@ def search(ctx, res):
                 pairs = itertools.combinations_with_replacement(range(len(chains)), 2)
             else:
                 pairs = [(rnd.randrange(len(chains)), rnd.randrange(len(chains))) for _ in range(20000)]
+            # whole-enumeration partition check (every pair, any n): chains with one topology_id must have one
+            # multiset of grouping multisets and vice versa; a candidate pair is confirmed on topology_same itself
+            cand = []
+            for idn, gg in ((True, gn), (False, gi)):
+                by_code, by_oracle = {}, {}
+                for i, c in enumerate(chains):
+                    kc, ko = repr(c.topology_id(idn)), repr(gg[i])
+                    j = by_code.setdefault(kc, i)
+                    if gg[j] != gg[i]:
+                        cand.append((j, i))
+                    j = by_oracle.setdefault(ko, i)
+                    if repr(chains[j].topology_id(idn)) != kc:
+                        cand.append((j, i))
+            pairs = itertools.chain(cand[:50], pairs)
             nb = 0
             for i, j in pairs:
                 for idn, gg in ((True, gn), (False, gi)):
                     s = chains[i].topology_same(chains[j], idn)
                     if s != (gg[i] == gg[j]) and nb < 3:
                         nb += 1
-                        res.fail("topology_same:iff", "topology_same(identical=%s) = %s but grouping sets %s for chains %s / %s" % (
-                            idn, s, "coincide" if gg[i] == gg[j] else "differ", chains[i], chains[j]), dict(rp, index=[i, j], identical=idn))
+                        res.fail("topology_same:iff", "topology_same(identical=%s) = %s but the multisets of final-state groupings %s (%s / %s) for chains %s / %s of from_particles(%s, %s)" % (
+                            idn, s, "coincide" if gg[i] == gg[j] else "differ", gg[i], gg[j], chains[i], chains[j], top_s, fs), dict(rp, index=[i, j], identical=idn))
             # table <-> chain round trip
             sel = range(len(chains)) if n <= 5 or hard else rnd.sample(range(len(chains)), 150)
             nb = 0
@@ -450,6 +510,28 @@ def search(ctx, res):
         n_ident += has_ident
         grp = DecayGroup(chains)
         keyp = "get_chains_map:identical-names" if has_ident else "get_chains_map"
+        namekey = {str(f): f.name for f in finals}
+        gname = [name_groups(c, top, finals, namekey) for c in chains]
+        want_name_classes = []
+        for g in gname:
+            if g not in want_name_classes:
+                want_name_classes.append(g)
+        try:
+            st_n = grp.topology_structure(identical=True, standard=False)
+            bad_pair = None
+            if len(st_n) != len(want_name_classes):
+                # name the two chains that were merged / split
+                for i, j in itertools.combinations(range(len(chains)), 2):
+                    if chains[i].topology_same(chains[j], True) != (gname[i] == gname[j]):
+                        bad_pair = (i, j)
+                        break
+                res.fail("topology_structure:classes:identical", "topology_structure(identical=True) gives %d classes, the chains have %d distinct multisets of name groupings%s: %s" % (
+                    len(st_n), len(want_name_classes),
+                    "" if bad_pair is None else " (chains %d and %d: topology_same=%s, groupings %s / %s)" % (
+                        bad_pair[0], bad_pair[1], chains[bad_pair[0]].topology_same(chains[bad_pair[1]], True), gname[bad_pair[0]], gname[bad_pair[1]]),
+                    [sp.line() for sp in specs]), dict(rp, identical=True))
+        except Exception as e:
+            res.fail("topology_structure:raises", "topology_structure(identical=True) raises %s(%s) on the group %s" % (type(e).__name__, e, [sp.line() for sp in specs]), rp)
         try:
             st = grp.topology_structure()
             if len(st) != len(want_classes):
@@ -495,6 +577,19 @@ def replay(ctx, payload):
         specs = [Spec(d) for d in r["chains"]]
         g = DecayGroup([sp.build() for sp in specs])
         print("topology_structure:", g.topology_structure())
+        if r.get("identical"):
+            top, finals = g.chains[0].top, g.chains[0].outs
+            key = {str(f): f.name for f in finals}
+            gname = [name_groups(c, top, finals, key) for c in g.chains]
+            want = []
+            for x in gname:
+                if x not in want:
+                    want.append(x)
+            st_n = g.topology_structure(identical=True, standard=False)
+            print("topology_structure(identical=True): %d classes; distinct multisets of name groupings: %d" % (len(st_n), len(want)))
+            for c, x in zip(g.chains, gname):
+                print(" ", c, x)
+            return 0 if len(st_n) == len(want) else 1
         try:
             cm = g.get_chains_map()
         except Exception as e:
